@@ -6,7 +6,7 @@ from .. import inputs
 from . import geom
 
 SPEC = dict(
-    lean_modules=['SmVerif.Props.C14'],
+    lean_modules=['SmVerif.Props.C14', 'SmVerif.Props.VecPreds'],
     groups=['Transforms3d', 'Quaternions', 'Vectors'],
     expected_untranslatable=('trinterp_T', 'trinterp_T_nostart'),
     partial=['idempotence and fixed points are proved in exact arithmetic; the 1e-12 float statement is explored'],
